@@ -1,6 +1,72 @@
 import DaskModel.DriverLib
+import DaskModel.Model.NormalForm
 open Dask
+open Dask.NF
 
-def table : List (String × Handler) := []
+/-! Line-protocol driver of group `token` (C11–C15). -/
+
+/-- decode a value:
+  `(int 5) (bool true) (float "1.5") (str "a") (bytes (1 2)) (none) (atom "r") (list v…) (tuple v…)
+   (dict (k v)…) (set v…) (arr0 v "dtype") (ndarray "dtype" (shape…) (strides…) off (buf…)) (objarr (shape…) ("a" …))` -/
+partial def decVal : SExp → Option Val
+  | .list [.sym "int", .int i] => some (.int i)
+  | .list [.sym "bool", b] => do pure (.bool (← b.toBool?))
+  | .list [.sym "float", .str r] => some (.float r)
+  | .list [.sym "str", .str s] => some (.str s)
+  | .list [.sym "bytes", b] => do pure (.bytes (← b.toNats?))
+  | .list [.sym "none"] => some .none
+  | .list [.sym "atom", .str r] => some (.atom r)
+  | .list (.sym "list" :: xs) => do pure (.list (← xs.mapM decVal))
+  | .list (.sym "tuple" :: xs) => do pure (.tuple (← xs.mapM decVal))
+  | .list (.sym "set" :: xs) => do pure (.set (← xs.mapM decVal))
+  | .list (.sym "dict" :: kvs) => do
+    let ps ← kvs.mapM (fun e => match e with
+      | .list [k, v] => do pure ((← decVal k), (← decVal v))
+      | _ => none)
+    pure (.dict ps)
+  | .list [.sym "arr0", v, .str dt] => do pure (.arr0 (← decVal v) dt)
+  | .list [.sym "ndarray", .str dt, shape, strides, .int off, buf] => do
+    pure (.ndarray dt (← shape.toNats?) (← strides.toInts?) off (← buf.toNats?))
+  | .list [.sym "objarr", shape, .list elems] => do
+    pure (.objarr (← shape.toNats?) (← elems.mapM SExp.toStr?))
+  | _ => none
+
+/-- `(tokpre v…)` ↦ the string fed to md5 by `tokenize(v…)` -/
+def hTokPre : Handler := handler fun args => do
+  let vs ← args.mapM decVal
+  pure (.str (tokPre vs))
+
+/-- `(tokprekw (v…) (("k" v)…))` ↦ the string fed to md5 by `tokenize(*v, **kw)` -/
+def hTokPreKw : Handler := handler fun args =>
+  match args with
+  | [.list vs, .list kws] => do
+    let vs ← vs.mapM decVal
+    let kws ← kws.mapM (fun e => match e with
+      | .list [.str k, v] => do pure (k, (← decVal v))
+      | _ => none)
+    pure (.str (tokPreKw vs kws))
+  | _ => none
+
+/-- `(pyrepr v)` / `(pystr v)` -/
+def hPyRepr : Handler := handler fun args =>
+  match args with
+  | [v] => do pure (.str (pyRepr (← decVal v)))
+  | _ => none
+def hPyStr : Handler := handler fun args =>
+  match args with
+  | [v] => do pure (.str (pyStr (← decVal v)))
+  | _ => none
+
+/-- `(logical (shape…) (strides…) off (buf…))` ↦ `(ok (els…))` | `(oob)` -/
+def hLogical : Handler := handler fun args =>
+  match args with
+  | [shape, strides, .int off, buf] => do
+    match logical (← shape.toNats?) (← strides.toInts?) off (← buf.toNats?) with
+    | some els => pure (.list [.sym "ok", SExp.ofNats els])
+    | none => pure (.list [.sym "oob"])
+  | _ => none
+
+def table : List (String × Handler) :=
+  [("tokpre", hTokPre), ("tokprekw", hTokPreKw), ("pyrepr", hPyRepr), ("pystr", hPyStr), ("logical", hLogical)]
 
 def main : IO Unit := runDriver table
